@@ -30,6 +30,14 @@ THEOREMS = [
     'CC.C13_geometry', 'CC.C13_wire_split', 'CC.C13_order', 'CC.C13_tables',
 ]
 OPEN_STATEMENTS = []
+# the parser model *is* DiagramParser.py: every method, translated statement by statement
+# (harness/extract_drawparser.py → CC/Gen/DrawParser.lean), equals the hand-written model function
+LEAN_MODULE_EXTRA = ['CC.Properties.C13Gen']
+THEOREMS += [
+    'CC.C13_gen_elements', 'CC.C13_gen_all_nodes', 'CC.C13_gen_sweep', 'CC.C13_gen_equal_potential',
+    'CC.C13_gen_unique_nodes', 'CC.C13_gen_unique_node_mapping', 'CC.C13_gen_node_label_mapping',
+    'CC.C13_gen_get_node_index', 'CC.C13_gen_ground', 'CC.C13_gen_ground_label', 'CC.C13_gen_get_element',
+]
 ASSUMPTIONS = [
     'schemdraw placement (element → absanchors) is a parameter: the model receives the anchors the real objects carry; '
     'the oracle additionally checks that they are the points the drawing program named',
@@ -135,6 +143,20 @@ def correspond(ctx, out, d, desc):
             bad.append('circuit_translator')
     elif isinstance(r['circuit'], tuple) or not circuits_equal(r['circuit'], m['circuit']['ok']):
         bad.append('circuit_translator')
+    # get_element: every name of the drawing and one that does not occur
+    from CircuitCalculator.SimpleCircuit.DiagramParser import SchematicDiagramParser
+    p = SchematicDiagramParser(d)
+    names = sorted({s.get('name', '') for s in syms}) + ['no such element']
+    ge = drv.call('draw_get_element', syms=syms, names=names)
+    for nm, mres in zip(names, ge):
+        try:
+            e = p.get_element(nm)
+            ires = (gd.class_name(e), e.name, gd.ptkey(e.absanchors['start']))
+        except Exception as ex:
+            ires = ('err', tag(ex))
+        mm = ('err', mres['err']) if 'err' in mres else (mres['ok']['cls'], mres['ok']['name'], gd.jkey(mres['ok']['start']))
+        if ires != mm:
+            out.disagree('draw_get_element', desc, str(ires), mres, name=nm)
     for b in bad:
         out.disagree('draw_parse.' + b, desc,
                      dict(labels=str(r['labels']), ground=str(r['ground_label']), circuit=str(show_circuit(r['circuit'])),
